@@ -69,13 +69,13 @@ fn main() {
     let ns = n as u64;
     let mut rep: Report = match args.engine.as_str() {
         "c16-disconnect" => {
-            let total: u64 = if quick { 320 } else { 30_000 };
+            let total: u64 = if quick { 480 } else { 30_000 };
             let mut out = sharded(n, move |s| c16::run_shard(seed, s, ns, total, quick));
             c16::finish(&mut out);
             out.rep
         }
         "c17-shutdown" => {
-            let total: u64 = if quick { 160 } else { 10_000 };
+            let total: u64 = if quick { 640 } else { 10_000 };
             let mut out = sharded(n, move |s| c17::run_shard(seed, s, ns, total));
             c17::finish(&mut out, seed);
             out.rep
